@@ -20,7 +20,11 @@ Definition chk_c18 (cs : list N) : list N :=
   | Some (loc, ids, b, p) =>
     (* placement and multiplicity are C18's subject; the one cross-property dependency the library
        enforces (AUTH: Authentication Data needs an Authentication Method) is modelled as it is *)
-    let e := placement_ok loc ids && (if loc =? L_AUTH then auth_dep_ok ids else true) in
+    (* loc >= 100: the same location on a second base packet; 115 = AUTH with a non-Success reason
+       code, where the Authentication Method is mandatory *)
+    let bl := loc mod 100 in
+    let e := placement_ok bl ids && (if bl =? L_AUTH then auth_dep_ok ids else true)
+             && (if loc =? 115 then memn 21 ids else true) in
     if negb (Bool.eqb b e) then [0; V_ANSWER; b2n e]
     else if negb (Bool.eqb p e) then [0; V_STATE; b2n e]
     else []
